@@ -367,10 +367,202 @@ def check(ctx):
         if v.dtype != torch.float64 or got != exp:
             ctx.fail("payoff on a float64 path is not the (correctly rounded) contract value at the given strike: strike or prices rounded through "
                      "a lower precision?", case, key=f"{via}.{kind}.payoff:double-precision", detail={"impl": got, "contract": exp})
+    check_reuse(ctx, torch, g)
+    check_offgrid_maturity(ctx, torch, g)
     return ctx.finish(
         rule="functional payoffs on dyadic paths (ties with the strike/extremes frequent, T=1,2,.., float32/64), derivative objects "
              "with injected buffers and random clause sequences (re-registration included), forward-start index sweeps over dt/start; "
-             "non-trivial = T>=2 (functional), any derivative/start-index case; distinct = sha1 of canonical case")
+             "ONE derivative object re-used over a sequence of contract-term changes (strike, call flag, start), in-place price edits, "
+             "buffer re-registrations and clause registrations with payoff() after every step; forward-start options on SIMULATED paths "
+             "whose maturity is / is not a whole number of steps (terminal price = last simulated column, start=0 vs EuropeanOption); "
+             "non-trivial = T>=2 (functional), any derivative/start-index/re-use/off-grid case; distinct = sha1 of canonical case")
+
+
+# ---------------------------------------------------------------------------------------------------------------------------
+# ONE derivative object, a sequence of changes, payoff() after every change: the contract is the one at the CURRENT terms on
+# the CURRENT prices (nothing of an earlier evaluation may survive)
+
+def gen_reuse_ops(g, c):
+    kind = c["kind"]
+    N, T = len(c["paths"]), len(c["paths"][0])
+    pow2 = kind == "forward_start"
+    menu = [("strike", 4), ("spot", 3), ("again", 1), ("reregister", 1)]
+    if kind not in ("forward_start", "variance_swap"):
+        menu.append(("call", 3))
+    if kind == "forward_start":
+        menu.append(("start", 3))
+    if kind != "variance_swap":
+        menu.append(("clause", 1))
+    ops = []
+    for _ in range(g.choice([1, 2, 3, 4, 6])):
+        op = g.weighted(menu)
+        if op == "strike":
+            if pow2:
+                ops.append(["strike", rat_str(g.choice([F(1, 4), F(1, 2), F(1), F(2), F(3, 4)]))])
+            else:
+                ops.append(["strike", rat_str(g.choice([p[-1] for p in c["paths"]] + [g.dy(F(1, 4), 4, 3)] * 2))])
+        elif op == "call":
+            ops.append(["call", g.chance(0.7)])          # "toggle" with prob .7, else re-assign the same flag
+        elif op == "start":
+            ops.append(["start", g.randint(0, T - 1)])
+        elif op == "spot":
+            cells = []
+            for _ in range(g.choice([1, 1, 2, N * T])):
+                v = F(2) ** g.randint(-2, 2) if pow2 else g.dy(F(1, 4), 4, 3)
+                cells.append([g.randint(0, N - 1), g.choice([T - 1, g.randint(0, T - 1)]), rat_str(v)])
+            ops.append(["spot", cells])
+        elif op == "reregister":
+            ops.append(["reregister", enc_rat(gen_paths(g, N, T, 3, pow2=pow2))])
+        elif op == "clause":
+            ck = g.choice(["affine", "cap", "floor"])
+            if ck == "affine":
+                d = ["affine", rat_str(g.choice([F(1, 2), F(2), F(-1)])), rat_str(g.choice([F(0), F(1, 2), F(-1, 4)]))]
+            else:
+                d = [ck, rat_str(g.dy(0, 2, 2))]
+            ops.append(["clause", g.choice(["a", "b", "z"]), d])
+        else:
+            ops.append(["again"])
+    return ops
+
+
+def reuse_expected(cur):
+    """the property statement at the current terms / prices: exact Fractions, floats (tolerance) for the variance swap"""
+    if cur["kind"] == "variance_swap":
+        out = []
+        for p in cur["paths"]:
+            lr = [math.log(float(p[i + 1])) - math.log(float(p[i])) for i in range(len(p) - 1)]
+            out.append(sum(x * x for x in lr) / len(lr) / float(cur["dt"]) - float(cur["strike"]))
+        return out
+    start = cur["sidx"] if cur["kind"] == "forward_start" else 0
+    base = [contract(cur["kind"], cur["call"], cur["strike"], p, start, -1) for p in cur["paths"]]
+    return [apply_clauses_py(cur["adds"], b)[1] for b in base]
+
+
+def check_reuse(ctx, torch, g):
+    for _ in range(160 if ctx.tier == "quick" else 2500):
+        c = gen_deriv(g, ctx.tier)
+        if c["kind"] == "variance_swap":
+            c["adds"] = []
+        ops = gen_reuse_ops(g, c)
+        case = _small(c) | {"ops": ops}
+        ctx.case(case, nontrivial=True, tag="reuse_" + c["kind"])
+        ctx.traces += 1
+        ctx.stats[f"reuse:nops={len(ops)}"] += 1
+        try:
+            d, stock = build_deriv(torch, c)
+        except Exception as e:  # noqa
+            raise InternalError("cannot build derivative: " + repr(e))
+        cur = dict(kind=c["kind"], call=c["call"], strike=c["strike"], paths=[list(p) for p in c["paths"]],
+                   adds=[list(a) for a in c["adds"]], sidx=c["sidx"], dt=c["dt"])
+        for step, op in enumerate([["initial"]] + ops):
+            what = op[0]
+            with torch.no_grad():
+                if what == "strike":
+                    cur["strike"] = F(op[1])
+                    d.strike = float(cur["strike"])
+                elif what == "call":
+                    cur["call"] = (not cur["call"]) if op[1] else cur["call"]
+                    d.call = cur["call"]
+                elif what == "start":
+                    cur["sidx"] = op[1]
+                    d.start = op[1] * float(c["dt"])
+                elif what == "spot":
+                    for i, j, v in op[1]:
+                        cur["paths"][i][j] = F(v)
+                        stock.spot[i, j] = float(F(v))          # in place: the buffer object stays the same
+                elif what == "reregister":
+                    cur["paths"] = [[F(v) for v in p] for p in op[1]]
+                    stock.register_buffer("spot", torch.tensor([[float(v) for v in p] for p in cur["paths"]], dtype=torch.float64))
+                elif what == "clause":
+                    cur["adds"].append([op[1], op[2]])
+                    d.add_clause(op[1], CLAUSES[op[2][0]](*[F(x) for x in op[2][1:]]))
+                st, v, mut = call_impl(d.payoff, watch=[("derivative", d)])
+            if mut:
+                ctx.mutated("derivative.payoff", mut, case)
+            ctx.stats[f"reuse:op={what}"] += 1
+            here = case | {"step": step, "after": op, "strike_now": rat_str(cur["strike"]), "call_now": cur["call"],
+                           "sidx_now": cur["sidx"], "paths_now": enc_rat(cur["paths"])}
+            if st != "ok" or tuple(v.shape) != (len(cur["paths"]),):
+                ctx.fail("payoff() on a re-used derivative object raised / has the wrong shape", here,
+                         key=f"derivative.{c['kind']}.payoff:reuse-error", detail=v if st != "ok" else list(v.shape))
+                break
+            exp = reuse_expected(cur)
+            if c["kind"] == "variance_swap":
+                got = [float(z) for z in v.tolist()]
+                ok = all(abs(a - b) <= 1e-9 * (1 + abs(b)) for a, b in zip(got, exp))
+                det = {"impl": got, "contract": exp}
+            else:
+                got = tensor_to_fracs(v)
+                ok = got == exp
+                det = {"impl": enc_rat(got), "contract": enc_rat(exp)}
+                if not ok and c["kind"] == "forward_start" and d._start_index() != cur["sidx"]:
+                    ctx.fail("forward-start option starts at the wrong time index: floor(start/dt) in doubles lands one index early",
+                             here | {"start_index": d._start_index()}, key="cliquet._start_index:floor(start/dt)", detail=det)
+                    break
+            if not ok:
+                ctx.fail("payoff() of a re-used derivative object is not the contract payoff at its CURRENT terms on the CURRENT prices "
+                         f"(after: {what}; something of an earlier evaluation survived?)", here,
+                         key=f"derivative.payoff:reuse-after-{what}", detail=det)
+                break
+
+
+# ---------------------------------------------------------------------------------------------------------------------------
+# forward-start options on SIMULATED paths; the maturity need not be a whole number of steps: the terminal price is the LAST
+# simulated price (IEEE division / subtraction are correctly rounded: float64 payoffs are compared exactly with Python doubles)
+
+def check_offgrid_maturity(ctx, torch, g):
+    import pfhedge.instruments as I
+    for _ in range(120 if ctx.tier == "quick" else 2000):
+        dtv = g.choice([1 / 250, 1 / 250, 0.01, 1 / 52, 1 / 365, 1 / 12, 0.1, 1 / 8])
+        whole = g.randint(1, 12)
+        frac = g.choice([0, 0.5, 0.5, 0.25, 0.75, 0.1, 0.9])
+        mat = (whole + frac) * dtv
+        sidx = g.randint(0, whole)
+        K = g.choice([1.0, 1.0, 0.99, 1.01, 0.5, 0.9])
+        N = g.choice([1, 3, 8])
+        seed = g.randint(0, 10 ** 6)
+        init = g.choice([None, None, None, 1.25, 0.75])
+        sigma = g.choice([0.2, 0.3, 1.0])
+        case = {"dt": dtv, "maturity": mat, "steps": whole + frac, "start_step": sidx, "strike": K, "n_paths": N, "seed": seed,
+                "init": init, "sigma": sigma}
+        ctx.case(case, nontrivial=True, tag="offgrid_maturity" if frac else "ongrid_maturity")
+        ctx.traces += 1
+        ctx.stats[f"offgrid:frac={frac}"] += 1
+        stock = I.BrownianStock(sigma=sigma, dt=dtv, dtype=torch.float64)
+        d = I.EuropeanForwardStartOption(stock, strike=K, maturity=mat, start=sidx * dtv)
+        torch.manual_seed(seed)
+        d.simulate(n_paths=N, init_state=None if init is None else (init,))
+        xs = [[float(z) for z in r] for r in stock.spot.tolist()]
+        with torch.no_grad():
+            st, v, mut = call_impl(d.payoff, watch=[("derivative", d)])
+        if mut:
+            ctx.mutated("derivative.payoff", mut, case)
+        case = case | {"n_columns": len(xs[0])}
+        if st != "ok" or tuple(v.shape) != (N,) or v.dtype != torch.float64:
+            ctx.fail("forward-start payoff() raised / wrong shape on a simulated path", case,
+                     key="derivative.forward_start.payoff:simulated-error", detail=v if st != "ok" else [list(v.shape), str(v.dtype)])
+            continue
+        if len(xs[0]) <= sidx:
+            continue            # the simulated grid is the subject of another property; nothing to evaluate here
+        got = [float(z) for z in v.tolist()]
+        exp = [max(r[-1] / r[sidx] - K, 0.0) for r in xs]
+        if got != exp:
+            if d._start_index() != sidx:
+                ctx.fail("forward-start option starts at the wrong time index: floor(start/dt) in doubles lands one index early",
+                         case | {"start_index": d._start_index()}, key="cliquet._start_index:floor(start/dt)",
+                         detail={"impl": got, "contract": exp})
+            else:
+                ctx.fail("forward-start payoff on a simulated path is not max(S_T/S_start - K, 0) with S_T the TERMINAL (last simulated) "
+                         "price" + (" - maturity between two grid points" if frac else ""), case,
+                         key="derivative.forward_start.payoff:terminal-price" + ("-offgrid" if frac else ""),
+                         detail={"impl": got, "contract": exp, "paths": xs})
+            continue
+        if sidx == 0 and init is None:
+            # S_0 = 1 exactly: S_T / S_0 - K = S_T - K, the European call on the same path
+            eu = [float(z) for z in I.EuropeanOption(stock, call=True, strike=K, maturity=mat).payoff().tolist()]
+            if eu != got:
+                ctx.fail("forward-start option with start=0 (S_0 = 1) differs from the European call on the same simulated path", case,
+                         key="derivative.forward_start.payoff:start0-vs-european", detail={"forward_start": got, "european": eu})
 
 
 def _small(c):
